@@ -9,7 +9,7 @@
 From H3V Require Import Base.Bytes Base.BytesLemmas Spec.RFC9114Wire Model.HttpCrate Model.Headers Spec.WellFormed
   Proofs.HeadersProofs Model.EndToEnd Spec.EndToEndSpec Model.EndToEndLayers Proofs.EndToEndProofs
   Proofs.EndToEndHeaders Proofs.EndToEndWire Spec.EndToEndStream Proofs.EndToEndFrames
-  Model.EndToEndRef Proofs.EndToEndRefProofs.
+  Model.EndToEndRef Proofs.EndToEndRefProofs Proofs.EndToEndReader.
 
 
 (* the messages the theorems speak about: what an application can build with the `http` crate
@@ -65,6 +65,16 @@ Proof.
   - exact Hg.
 Qed.
 
+Lemma frame_wf_law f :
+  match f with SHeaders x => block_ok x | SData p => block_ok p | SGrease g => g < 148764065110560899 end ->
+  wf_bytes (rfc_frame_bytes f).
+Proof.
+  intros Hf. assert (Hv : forall x, wf_bytes (RFC9114Wire.rfc_varint x)) by (intros x; apply VarintProofs.rfc_vi_enc_wf).
+  destruct f; cbn [rfc_frame_bytes]; unfold RFC9114Wire.rfc_frame;
+    (apply wf_bytes_app; split; [apply Hv|apply wf_bytes_app; split; [apply Hv|]]); try apply Hf.
+  apply wf_bytesb_spec. reflexivity.
+Qed.
+
 Section Remaining.
   (* C11 *)
   Variable encode_section : fieldl -> option bytes.
@@ -79,7 +89,8 @@ Section Remaining.
 
   Hypothesis H_section : forall fs b, fields_ok fs -> encode_section fs = Some b -> block_ok b /\ decode_section b = Some fs.
   Hypothesis H_read : forall h items s, hist_ok h = true -> rx_run rstate r_arrive r_fin r_poll h r_init = (items, s) ->
-    r_done s = true -> merge_items [] items = rfc_stream_reading (hist_flat h).
+    r_done s = true -> wf_bytes (hist_flat h) -> no_fail (rfc_stream_reading (hist_flat h)) ->
+    merge_items [] items = rfc_stream_reading (hist_flat h).
 
   Theorem request_fidelity :
     forall (grease : option N) (m : message c12_request hmap) (ks : list N) (b : bytes) (h : list hevent) items s,
@@ -102,6 +113,7 @@ Section Remaining.
     - exact H_section.
     - exact write_law.
     - exact H_read.
+    - exact frame_wf_law.
     - exact frames_law.
   Qed.
 
@@ -127,6 +139,7 @@ Section Remaining.
     - exact H_section.
     - exact write_law.
     - exact H_read.
+    - exact frame_wf_law.
     - exact frames_law.
   Qed.
 End Remaining.
@@ -146,7 +159,7 @@ Theorem request_fidelity_store_and_forward :
     = expected_events c12_norm_request (fun t : hmap => t) m.
 Proof.
   exact (request_fidelity ref_encode_section ref_decode_section sfstate sf_init sf_arrive sf_finish sf_poll sf_done
-           ref_section_roundtrip sf_reader_law).
+           ref_section_roundtrip (fun h items s Hok Hrun Hd _ _ => sf_reader_law h items s Hok Hrun Hd)).
 Qed.
 
 Theorem response_fidelity_store_and_forward :
@@ -162,5 +175,49 @@ Theorem response_fidelity_store_and_forward :
     = expected_events (fun p => {| rs_status := cp_status p; rs_headers := cp_fields p |}) (fun t : hmap => t) m.
 Proof.
   exact (response_fidelity ref_encode_section ref_decode_section sfstate sf_init sf_arrive sf_finish sf_poll sf_done
-           ref_section_roundtrip sf_reader_law).
+           ref_section_roundtrip (fun h items s Hok Hrun Hd _ _ => sf_reader_law h items s Hok Hrun Hd)).
+Qed.
+
+(* ---------- the same with the incremental reference reader (one frame header or one piece of payload per call):
+   the pipeline that the correspondence run executes.  Closed. ---------- *)
+Lemma ref_reader_law_merged h items s :
+  hist_ok h = true -> rx_run rstate ref_arrive ref_fin ref_poll h ref_init = (items, s) -> ref_done s = true ->
+  wf_bytes (hist_flat h) -> no_fail (rfc_stream_reading (hist_flat h)) ->
+  merge_items [] items = rfc_stream_reading (hist_flat h).
+Proof.
+  intros Hok Hrun Hd _ Hnf. rewrite (ref_reader_law h items s Hok Hrun Hd Hnf []).
+  unfold rfc_stream_reading, rfc_stream_reading_with. destruct (Frames.frame_outcome no_settings_check (hist_flat h) Frames.Finished) as [toks tl].
+  apply read_tokens_merged.
+Qed.
+
+Theorem request_fidelity_reference_reader :
+  forall (grease : option N) (m : message c12_request hmap) (ks : list N) (b : bytes) (h : list hevent) items s,
+    request_head_ok (m_head m) -> Forall block_ok (m_pieces m) ->
+    match m_trailers m with Some t => trailers_ok t | None => True end ->
+    match grease with Some g => g < 148764065110560899 | None => True end ->
+    wire c12_request hmap c12_fields_of_request c12_fields_of_trailers ref_encode_section c14_wire_write grease m ks = Some b ->
+    hist_ok h = true -> hist_flat h = b ->
+    rx_run rstate ref_arrive ref_fin ref_poll h ref_init = (items, s) -> ref_done s = true ->
+    receiver_outcome request hmap c12_request_of_fields c12_trailers_of_fields ref_decode_section
+                     rstate ref_init ref_arrive ref_fin ref_poll h
+    = expected_events c12_norm_request (fun t : hmap => t) m.
+Proof.
+  exact (request_fidelity ref_encode_section ref_decode_section rstate ref_init ref_arrive ref_fin ref_poll ref_done
+           ref_section_roundtrip ref_reader_law_merged).
+Qed.
+
+Theorem response_fidelity_reference_reader :
+  forall (grease : option N) (m : message c12_response hmap) (ks : list N) (b : bytes) (h : list hevent) items s,
+    response_head_ok (m_head m) -> Forall block_ok (m_pieces m) ->
+    match m_trailers m with Some t => trailers_ok t | None => True end ->
+    match grease with Some g => g < 148764065110560899 | None => True end ->
+    wire c12_response hmap c12_fields_of_response c12_fields_of_trailers ref_encode_section c14_wire_write grease m ks = Some b ->
+    hist_ok h = true -> hist_flat h = b ->
+    rx_run rstate ref_arrive ref_fin ref_poll h ref_init = (items, s) -> ref_done s = true ->
+    receiver_outcome response hmap c12_response_of_fields c12_trailers_of_fields ref_decode_section
+                     rstate ref_init ref_arrive ref_fin ref_poll h
+    = expected_events (fun p => {| rs_status := cp_status p; rs_headers := cp_fields p |}) (fun t : hmap => t) m.
+Proof.
+  exact (response_fidelity ref_encode_section ref_decode_section rstate ref_init ref_arrive ref_fin ref_poll ref_done
+           ref_section_roundtrip ref_reader_law_merged).
 Qed.
